@@ -534,14 +534,19 @@ func accumulatorRemoveRule(P *Program, R *Report) {
 	}
 	// Witness.Verify reports a witness as valid only if the relation holds for the witness's own pair and accumulator
 	if fn := mustFunc(P, R, rule, "revocation.(*Witness).Verify"); fn != nil {
-		be := P.bigEval(fn)
-		inline := eqTermMatcher(be, termFn("Exp", tsym(witD+".U"), tsym(witD+".E"), tsym(pkD+".N")), tsym(witD+".SignedAccumulator.Accumulator.Nu"))
+		lhs := termFn("Exp", tsym(witD+".U"), tsym(witD+".E"), tsym(pkD+".N"))
+		isNu := func(d string) bool {
+			return d == witD+".SignedAccumulator.Accumulator.Nu" || d == "<revocation.Accumulator>.Nu" ||
+				(strings.HasPrefix(d, "call:revocation.(*SignedAccumulator).UnmarshalVerify("+witD+".SignedAccumulator,") && strings.HasSuffix(d, "#0.Nu"))
+		}
+		// (the comparison itself, in Verify or in the helper it hands the pair, the accumulator and the key to: the helper
+		// is looked into with its parameters bound, whatever it is called and however its parameters are ordered)
 		mp(P, R, rule, "revocation.(*Witness).Verify:relation", "nil => u^e mod N compared equal to Nu of the witness's own accumulator (verify(w.U, w.E, w.SignedAccumulator.Accumulator, pk) true)", fn, AcceptNilErr(0), &MustPass{Match: func(a Atom) bool {
-			if c, ok := callAtom(a, True, "revocation.verify"); ok && len(callArgs(c)) == 4 {
-				ar := callArgs(c)
-				return desc(ar[0]) == witD+".U" && desc(ar[1]) == witD+".E" && desc(ar[2]) == witD+".SignedAccumulator.Accumulator" && desc(ar[3]) == pkD
+			t0, t1, ok := eqTerms(a, P.bigEval(a.Fn))
+			if !ok {
+				return false
 			}
-			return inline(a)
+			return (t0.equal(lhs) && isNu(t1.opaqueName())) || (t1.equal(lhs) && isNu(t0.opaqueName()))
 		}})
 		mp(P, R, rule, "revocation.(*Witness).Verify:accumulator", "nil => the witness's signed accumulator verified under the given key", fn, AcceptNilErr(0), &MustPass{Match: func(a Atom) bool {
 			c, idx := callAndResult(a.V)
